@@ -31,12 +31,22 @@ package route
 //@ define segOK(s *Segment) bool = s.strOnce.fired ==> s.str == segStr(s)
 //@ define routeOK(r *Route) bool = r.strOnce.fired ==> r.str == routeStr(r)
 
+//@ define noSlash(s string) bool = forall j int :: 0 <= j && j < len(s) ==> s[j] != '/'
+// percent-decoding applied once to a captured value (left raw if it cannot be decoded)
+//@ uninterpreted pathUnescape(s string) string
+//@ uninterpreted pathUnescapeOK(s string) bool
+//@ define decodeOnce(v string) string = ite(pathUnescapeOK(v), pathUnescape(v), v)
+//@ ghost field Params.raw map[string]string   // the captured (undecoded) values
+
+//@ define distinctStrs(xs []string) bool = forall i int, j int :: 0 <= i && i < j && j < len(xs) ==> xs[i] != xs[j]
+//@ define inStrs(xs []string, k string) bool = exists i int :: 0 <= i && i < len(xs) && xs[i] == k
+
 //@ define treeWF() bool =
 //@     (forall n *baseTree :: live(n) ==> nodeOK(n)) &&
 //@     (forall l *baseLeaf :: live(l) ==> leafOK(l)) &&
 //@     (forall s *staticTree :: live(s) ==> s.segment != nil) &&
-//@     (forall x *regexTree :: live(x) ==> x.regexp != nil && reGroups(x.regexp) == len(x.binds)) &&
-//@     (forall y *regexLeaf :: live(y) ==> y.regexp != nil) &&
+//@     (forall x *regexTree :: live(x) ==> x.regexp != nil && reGroups(x.regexp) == len(x.binds) && distinctStrs(x.binds) && allocated(x.binds)) &&
+//@     (forall y *regexLeaf :: live(y) ==> y.regexp != nil && reGroups(y.regexp) == len(y.binds) && distinctStrs(y.binds) && allocated(y.binds)) &&
 //@     (forall g *Segment :: live(g) ==> segOK(g)) &&
 //@     (forall q *Route :: live(q) ==> routeOK(q))
 
@@ -125,16 +135,21 @@ package route
 // ---------------------------------------------------------------------------
 
 //@ func (*baseTree).Match
-//@   props C07 C01
+//@   props C07 C01 C02
 //@   requires treeWF()
 //@   ensures[C01] result0 == specNext(t, trimLeftSlash(path), 0, header) && result2 == (result0 != nil)
+//@   ghost after matchNextSegment#0: params.raw = mapvals(params)
+//@   ensures[C02] result2 ==> forall k string :: result1[k] == ite(has(result1, k), decodeOnce(result1.raw[k]), result1.raw[k])
+//@   loop 0 invariant[C02] params != nil && (forall k string :: params[k] == ite(visited(k), decodeOnce(params.raw[k]), params.raw[k])) && (forall k string :: visited(k) ==> has(params, k))
 //@   modifies Segment.str, Segment.strOnce.fired
 //@   ensures treeWF()
 //@   ensures result2 ==> result0 != nil && result1 != nil && fresh(result1)
 //@   ensures !result2 ==> result0 == nil && result1 == nil
 
 //@ func (*baseTree).matchNextSegment
-//@   props C07 C01
+//@   props C07 C01 C02
+//@   assert[C02] before matchSubtree#0: noSlash(path[next:next + i]) && path[next + i] == '/'
+//@   assert[C02] before matchLeaf#0: noSlash(path[next:])
 //@   requires treeWF()
 //@   ensures[C01] result0 == specNext(t, path, next, header) && result1 == (result0 != nil)
 //@   requires 0 <= next && next <= len(path) && params != nil
@@ -143,8 +158,9 @@ package route
 //@   ensures result1 ==> result0 != nil
 
 //@ func (*baseTree).matchSubtree
-//@   props C07 C01
+//@   props C07 C01 C02
 //@   requires treeWF()
+//@   requires len(segment) <= next - 1 && segment == path[next - 1 - len(segment):next - 1] && path[next - 1] == '/'
 //@   ensures[C01] result0 == specSub(t, path, segment, next, header, 0) && result1 == (result0 != nil)
 //@   loop 0 invariant[C01] specSub(t, path, segment, next, header, 0) == specSub(t, path, segment, next, header, rangeindex + 1)
 //@   requires 1 <= next && next <= len(path) && params != nil
@@ -162,10 +178,15 @@ package route
 //@   loop 0 invariant[C01] firstLeaf(t, segment, header, 0) == firstLeaf(t, segment, header, rangeindex + 1)
 
 //@ func (*matchAllTree).matchAll
-//@   props C07 C01
+//@   props C07 C01 C02
 //@   requires treeWF()
 //@   ensures[C01] result0 == specAll(t, path, next, header, 1) && result1 == (result0 != nil)
 //@   loop 0 invariant[C01] specAll(t, path, old(next), header, 1) == specAll(t, path, next, header, captured)
+//@   requires 1 <= next && len(segment) <= next - 1 && segment == path[next - 1 - len(segment):next - 1] && path[next - 1] == '/'
+//@   ensures[C02] result1 ==> len(params[t.bind]) >= len(segment) && next - 1 - len(segment) + len(params[t.bind]) <= len(path) &&
+//@       params[t.bind] == path[next - 1 - len(segment):next - 1 - len(segment) + len(params[t.bind])]
+//@   ensures[C02] forall k string :: !(result1 && k == t.bind) ==> true
+//@   loop 0 invariant[C02] 1 <= next && 1 <= captured && old(next) <= next && path[next - 1:next] == "/" && segment == path[old(next) - 1 - len(old(segment)):next - 1]
 //@   requires 0 <= next && next <= len(path) && params != nil
 //@   modifies params[*], Segment.str, Segment.strOnce.fired
 //@   ensures treeWF()
@@ -173,24 +194,34 @@ package route
 //@   loop 0 invariant 0 <= next && next <= len(path) && treeWF()
 
 //@ func (*matchAllLeaf).matchAll
-//@   props C07 C01 C09
+//@   props C07 C01 C09 C02
 //@   requires treeWF()
 //@   ensures[C01,C09] result == ((l.capture <= 0 || l.capture >= countSlash(path[next - 1:]) + 1) && hdrOK(&l.baseLeaf, header))
+//@   ensures[C02] result ==> params[l.bind] == segment + "/" + path[next:]
+//@   ensures[C02] forall k string :: !(result && k == l.bind) ==> params[k] == old(params[k])
 //@   requires 1 <= next && next <= len(path) && params != nil
 //@   modifies params[*], Segment.str, Segment.strOnce.fired
 //@   ensures treeWF()
 
 //@ func (*regexTree).match
-//@   props C07 C01
+//@   props C07 C01 C02
 //@   requires treeWF() && params != nil
 //@   modifies params[*]
 //@   ensures[C01] result == (reLen(t.regexp, segment) == len(t.binds) + 1)
+//@   ensures[C02] result ==> forall i int :: 0 <= i && i < len(t.binds) ==> params[t.binds[i]] == reSub(t.regexp, segment, i + 1)
+//@   ensures[C02] forall k string :: !(result && inStrs(t.binds, k)) ==> params[k] == old(params[k])
+//@   loop 0 invariant[C02] forall i int :: 0 <= i && i <= rangeindex ==> params[t.binds[i]] == reSub(t.regexp, segment, i + 1)
+//@   loop 0 invariant[C02] forall k string :: !(exists i int :: 0 <= i && i <= rangeindex && t.binds[i] == k) ==> params[k] == old(params[k])
 
 //@ func (*regexLeaf).match
-//@   props C07 C01 C09
+//@   props C07 C01 C09 C02
 //@   requires treeWF() && params != nil
 //@   modifies params[*]
 //@   ensures[C01,C09] result == (reLen(l.regexp, segment) >= len(l.binds) + 1 && hdrOK(&l.baseLeaf, header))
+//@   ensures[C02] result ==> forall i int :: 0 <= i && i < len(l.binds) ==> params[l.binds[i]] == reSub(l.regexp, segment, i + 1)
+//@   ensures[C02] forall k string :: !(result && inStrs(l.binds, k)) ==> params[k] == old(params[k])
+//@   loop 0 invariant[C02] forall i int :: 0 <= i && i <= rangeindex ==> params[l.binds[i]] == reSub(l.regexp, segment, i + 1)
+//@   loop 0 invariant[C02] forall k string :: !(exists i int :: 0 <= i && i <= rangeindex && l.binds[i] == k) ==> params[k] == old(params[k])
 
 //@ func (*HeaderMatcher).Match
 //@   props C07 C09
@@ -237,6 +268,9 @@ package route
 //@   ensures result1 == nil ==> result0 != nil && fresh(result0)
 //@   ensures result1 == nil ==> leafBase(result0).parent == parent && leafBase(result0).segment == s && leafBase(result0).route == r && leafBase(result0).headerMatcher == nil
 //@   ensures result1 != nil ==> result0 == nil
+//@   loop 0 invariant treeWF() && parentBindSet != nil && fresh(parentBindSet)
+//@   loop 0 invariant forall a int, b int :: 0 <= a && a < b && b <= rangeindex ==> binds[a] != binds[b]
+//@   loop 0 invariant forall a int :: 0 <= a && a <= rangeindex ==> has(parentBindSet, binds[a])
 
 //@ func newTree
 //@   props C08
@@ -246,6 +280,9 @@ package route
 //@   ensures result1 == nil ==> nodeOf(result0).parent == parent && nodeOf(result0).segment == s && len(nodeOf(result0).subtrees) == 0 && len(nodeOf(result0).leaves) == 0
 //@   ensures result1 != nil ==> result0 == nil
 //@   loop 0 invariant treeWF() && (ancestor == nil || isTree(ancestor))
+//@   loop 1 invariant treeWF() && parentBindSet != nil && fresh(parentBindSet)
+//@   loop 1 invariant forall a int, b int :: 0 <= a && a < b && b <= rangeindex ==> binds[a] != binds[b]
+//@   loop 1 invariant forall a int :: 0 <= a && a <= rangeindex ==> has(parentBindSet, binds[a])
 
 //@ define routeWF(r *Route) bool = r != nil && len(r.Segments) >= 1 && (forall k int :: 0 <= k && k < len(r.Segments) ==> r.Segments[k] != nil)
 
